@@ -158,6 +158,14 @@ def unify_slots(t, alias):
     return out
 
 
+ALIASES = {}  # renaming in force (name family): {'A': 'Pose', ...}; empty = the single-letter names of the grammar
+
+
+def AL(name):
+    # a str object of its own (never the interned constant): alias names must be compared by value
+    return ''.join(list(ALIASES.get(name, name)))
+
+
 def check_replacements(obj, kind, t, r=None):
     """replace_this_with_var / replace_var_with_this on one real object."""
     from hpl.rewrite import replace_this_with_var, replace_var_with_this
@@ -166,7 +174,7 @@ def check_replacements(obj, kind, t, r=None):
     lin = absyn.lift(obj)
     c_in = cond_of(lin)
     label = f'{kind} {txt(c_in)}'
-    for alias in ('Z', 'A', 'B'):
+    for alias in [AL(a) for a in ('Z', 'A', 'B')]:
         # ---- this -> @alias -------------------------------------------------
         if r is not None:
             r.count('transitions')
@@ -309,7 +317,7 @@ def check_event(pred, ctext, r=None):
         'but(alias=)': lambda alias: A.HplSimpleEvent.publish('t', predicate=pred).but(alias=alias),
         'but(predicate=)': lambda alias: A.HplSimpleEvent.publish('t', alias=alias).but(predicate=pred),
     }
-    for alias, (route, make) in [(a, rt) for a in ('A', 'Z') for rt in routes.items()]:
+    for alias, (route, make) in [(AL(a), rt) for a in ('A', 'Z') for rt in routes.items()]:
         if r is not None:
             r.count('transitions')
         try:
@@ -389,7 +397,7 @@ def check_term(t, sort, r=None):
             # E4 depth 2: a predicate derived from one that has already been negated must be negated afresh
             from hpl.rewrite import replace_this_with_var, replace_var_with_this
 
-            for mk in (lambda: replace_var_with_this(p, 'A'), lambda: replace_this_with_var(p, 'Z')):
+            for mk in (lambda: replace_var_with_this(p, AL('A')), lambda: replace_this_with_var(p, AL('Z'))):
                 try:
                     d = mk()
                 except Exception:  # noqa: BLE001
@@ -419,6 +427,25 @@ def run(unit):
                     continue
                 seen.add(kind)
                 r.violation(kind, {'term': t, 'sort': sort, 'text': txt(t)}, detail, size=absyn.size(t))
+            if n <= 4 and (mentions(t, 'A') or mentions(t, 'B')):
+                # name family: aliases with several letters (never interned single characters), one a prefix of the other
+                from hplmc.checks.c10 import rename_vars
+
+                for mapping in ({'A': 'Pose', 'B': 'msg', 'Z': 'Zed'}, {'A': 'Ab', 'B': 'A', 'Z': 'AbZ'}):
+                    ALIASES.clear()
+                    ALIASES.update(mapping)
+                    try:
+                        t2 = rename_vars(t, mapping)
+                        r.count('evaluations')
+                        r.count('states')
+                        seen = set()
+                        for kind, detail in check_term(t2, sort, r):
+                            if kind in seen:
+                                continue
+                            seen.add(kind)
+                            r.violation(kind + ' [alias names with several letters]', {'term': t2, 'sort': sort, 'text': txt(t2), 'aliases': mapping}, detail, size=absyn.size(t2))
+                    finally:
+                        ALIASES.clear()
             if i % 2003 == 0:
                 r.sample({'term': txt(t)})
     elif unit[0] == 'api':
@@ -471,7 +498,12 @@ def replay(w):
     if 'api' in w:
         return [{'sig': v['sig'], 'detail': v['detail']} for v in run(('api', 0, 0, 1)).violations]
     if 'term' in w:
-        return [{'sig': k, 'detail': d} for k, d in check_term(_detuple(w['term']), w['sort'])]
+        ALIASES.clear()
+        ALIASES.update(w.get('aliases') or {})
+        try:
+            return [{'sig': k, 'detail': d} for k, d in check_term(_detuple(w['term']), w['sort'])]
+        finally:
+            ALIASES.clear()
     t1, t2 = (_detuple(x) for x in w['pair'])
     p1 = impl.parser('pred').parse('{ ' + absyn.expr_text(t1) + ' }')
     p2 = impl.parser('pred').parse('{ ' + absyn.expr_text(t2) + ' }')
@@ -481,7 +513,7 @@ def replay(w):
 def describe(tier):
     b = bounds(tier)
     return {
-        'rule': f"every Bool/Num term with <= {b['nodes']} nodes over x @A.x @B.y 1 p @A.p True False xs @A.xs with + - = < and or implies not unary-minus abs len sum max, sets, ranges, xs[..], inclusion and both quantifiers (references therefore occur in operands, set elements, range bounds, indices, accessed objects, quantifier domains and bodies, function arguments); each as expression and (Bool) as predicate: both replacements for aliases Z (unused), A, B compared with the abstract substitution and by evaluation with the alias bound to the message, inverse law, negate (also of predicates derived from an already negated one), event alias rewriting through four construction routes; 32 API-built calls with several arguments (max / min / gcd / atan2 / log) with a reference in each argument position; all ordered pairs of predicates with <= {b['pair_nodes']} nodes for join. x every valuation of the grid.",
+        'rule': f"every Bool/Num term with <= {b['nodes']} nodes over x @A.x @B.y 1 p @A.p True False xs @A.xs with + - = < and or implies not unary-minus abs len sum max, sets, ranges, xs[..], inclusion and both quantifiers (references therefore occur in operands, set elements, range bounds, indices, accessed objects, quantifier domains and bodies, function arguments); each as expression and (Bool) as predicate: both replacements for aliases Z (unused), A, B compared with the abstract substitution and by evaluation with the alias bound to the message, inverse law, negate (also of predicates derived from an already negated one), event alias rewriting through four construction routes; 32 API-built calls with several arguments (max / min / gcd / atan2 / log) with a reference in each argument position; all ordered pairs of predicates with <= {b['pair_nodes']} nodes for join. x every valuation of the grid. Terms with <= 4 nodes that mention an alias are repeated under two renamings to names with several letters (Pose / msg / Zed; Ab / A / AbZ - one a prefix of the other), passed as str objects of their own.",
         'bounds': b,
         'exhaustive': True,
         'assumptions': ['reference evaluator; aliases captured by a quantifier are outside the alphabet (quantified variables are i, j)'],
